@@ -889,9 +889,14 @@ class _ClientGen:
             return self.source()
         if k == "write":
             calc = r.random() < 0.12
-            i = self._add({"op": "write", "arg": r.choice(g), "calc": calc}, None)
+            a = r.choice(g)
+            i = self._add({"op": "write", "arg": a, "calc": calc}, None)
             if not calc:
                 self.live["moltext"].append(i)
+            elif r.random() < 0.6:
+                # the same labelled molecule in another insertion order, laid out again
+                h = self._add({"op": "edit", "arg": a, "how": "reorder", "x": r.randrange(1000), "inplace": False}, "graph", canon=(a in self.live["canon"]))
+                i = self._add({"op": "write", "arg": h, "calc": True}, None)
             return i
         if k == "read_reg":
             if self.live["moltext"]:
